@@ -11,7 +11,7 @@ use proptest::prelude::*;
 use serde_json::{json, Value};
 use std::collections::{HashMap, HashSet};
 
-pub const NAMES: &[&str] = &["a", "a1", "a10", "a1b", "a02", "b", "pkg1", "pkg10", "x9", "x10", "x1a", "a2"];
+pub const NAMES: &[&str] = &["a", "a1", "a10", "a1b", "a02", "b", "pkg1", "pkg10", "x9", "x10", "x1a", "a2", "n18446744073709551616", "n99999999999999999999"];
 pub const BAD_NAMES: &[&str] = &["", "1a", "a b", "a/b", "ä"];
 
 pub const PALETTE: &[ElementName] = &[
@@ -208,6 +208,17 @@ pub const FIXTURE_DOC: &str = r#"<?xml version="1.0" encoding="utf-8"?>
  </ELEMENTS>
 </AR-PACKAGE>
 <AR-PACKAGE><SHORT-NAME>e</SHORT-NAME></AR-PACKAGE>
+<AR-PACKAGE><SHORT-NAME>d</SHORT-NAME>
+ <ELEMENTS>
+  <SERVICE-SW-COMPONENT-TYPE><SHORT-NAME>Dem</SHORT-NAME><INTERNAL-BEHAVIORS><SWC-INTERNAL-BEHAVIOR><SHORT-NAME>IB</SHORT-NAME>
+   <SERVICE-DEPENDENCYS><SWC-SERVICE-DEPENDENCY><SHORT-NAME>Dep</SHORT-NAME><SERVICE-NEEDS>
+    <DIAGNOSTIC-EVENT-NEEDS><SHORT-NAME>Needs</SHORT-NAME>
+     <DIAG-EVENT-DEBOUNCE-ALGORITHM><DIAG-EVENT-DEBOUNCE-COUNTER-BASED><SHORT-NAME>Debounce</SHORT-NAME><COUNTER-FAILED-THRESHOLD>10</COUNTER-FAILED-THRESHOLD></DIAG-EVENT-DEBOUNCE-COUNTER-BASED></DIAG-EVENT-DEBOUNCE-ALGORITHM>
+    </DIAGNOSTIC-EVENT-NEEDS>
+   </SERVICE-NEEDS></SWC-SERVICE-DEPENDENCY></SERVICE-DEPENDENCYS>
+  </SWC-INTERNAL-BEHAVIOR></INTERNAL-BEHAVIORS></SERVICE-SW-COMPONENT-TYPE>
+ </ELEMENTS>
+</AR-PACKAGE>
 </AR-PACKAGES></AUTOSAR>"#;
 
 /// second view: shares /a and /pkg1, adds elements (mergeable with FIXTURE_DOC)
@@ -368,6 +379,28 @@ impl World {
             return World::fixture(kind);
         }
         let old = OLD[(kind as usize / 2) % 4];
+        if kind >= 12 {
+            // ONE model with files of two versions: base.arxml (00050, the fixture document) and old.arxml (older version)
+            // holding the package /o with an ELEMENTS container of its own; every other package is in base.arxml only
+            let old = OLD[kind as usize % 4];
+            let mut w = World::new(1);
+            let (f, _) = w.models[0].load_buffer(FIXTURE_DOC.as_bytes(), "base.arxml", true).expect("fixture loads");
+            w.files.push(FileH { model: 0, file: f.clone() });
+            let fo = w.models[0].create_file("old.arxml", old).unwrap();
+            w.files.push(FileH { model: 0, file: fo.clone() });
+            if let Some(pk) = w.models[0].root_element().get_sub_element(ElementName::ArPackages) {
+                let _ = pk.add_to_file(&fo);
+                if let Ok(o) = pk.create_named_sub_element(ElementName::ArPackage, "o") {
+                    let _ = o.remove_from_file(&f);
+                    let _ = o.create_sub_element(ElementName::Elements).and_then(|e| e.create_named_sub_element(ElementName::SystemSignal, "s_old"));
+                }
+                for k in pk.sub_elements().filter(|k| k.item_name().as_deref() != Some("o")) {
+                    let _ = k.remove_from_file(&fo);
+                }
+            }
+            w.rescan();
+            return w;
+        }
         let mut w = World::new(2);
         if kind < 8 {
             let f = w.models[0].create_file("old.arxml", old).unwrap();
